@@ -25,7 +25,6 @@ CORR_HEADER = ("From Coq Require Import ZArith QArith List String.\n"
 CHECK_FN = "check_c12"
 SHARD = 100
 F = fractions.Fraction
-KNOWN_SIG_REREG = "reregistration-misaligns-phase-arrays"
 
 RULE = ("one case = one ChargingNetwork driven through <= 30 operations (register_evse in random order incl. re-registration, "
         "add/remove/update_constraint with explicit / default / colliding names, Currents from random expression trees over "
@@ -396,12 +395,14 @@ def obs_coq(b):
 
 
 def trig_lists(ops, obs):
-    """for every op: (cos, sin) of the angles of all successful registrations so far, in order"""
-    angles, out = [], []
+    """for every op: (cos, sin) of the angle of every registered station (last registration), in station order"""
+    order, angle, out = [], {}, []
     for o, b in zip(ops, obs):
         if o[0] == "register" and b.get("err") is None:
-            angles.append(o[3])
-        out.append([(math.cos(math.radians(a)), math.sin(math.radians(a))) for a in angles])
+            if o[1] not in angle:
+                order.append(o[1])
+            angle[o[1]] = o[3]
+        out.append([(math.cos(math.radians(angle[s])), math.sin(math.radians(angle[s]))) for s in order])
     return out
 
 
@@ -545,8 +546,8 @@ def make_case(ops, mode=None, shrink_ok=False):
     errs = sorted({b["err"] for b in obs if b.get("err")})
     case["kind"] = "seq/%s" % ("+".join(e[:5] for e in errs) if errs else "clean")
     case["nontrivial"] = nadds > 0
-    case["sig"] = KNOWN_SIG_REREG if (why and why.startswith(KNOWN_SIG_REREG)) else ops
-    if why and not why.startswith(KNOWN_SIG_REREG) and shrink_ok:
+    case["sig"] = ops
+    if why and shrink_ok:
         # the property fails on the implementation: keep a minimised operation list for the replay file
         try:
             inp["shrunk_ops"] = shrink(ops, lambda cand: _fails(cand, mode))
@@ -557,7 +558,7 @@ def make_case(ops, mode=None, shrink_ok=False):
 
 def _fails(ops, mode):
     r = monitor(dict(input=dict(ops=ops, mode=mode), impl=run_impl(ops)))
-    return bool(r) and not r.startswith(KNOWN_SIG_REREG)
+    return bool(r)
 
 
 def corpus():
@@ -666,7 +667,7 @@ class Ref:
 
     def __init__(self):
         self.stations, self.ever, self.live = [], False, []
-        self.reg_log = []        # every successful registration (station, angle), in order
+        self.angle = {}          # station -> angle given at its last successful registration
 
     def names(self):
         return [x[0] for x in self.live]
@@ -691,7 +692,6 @@ def monitor(case):
         return check_algebra(case["input"]["expr"], impl["items"])
     ops, obs = case["input"]["ops"], case["impl"]
     ref = Ref()
-    known = None
     for step_no, (o, b) in enumerate(zip(ops, obs)):
         k = o[0]
         where = "op %d %s: " % (step_no, k)
@@ -704,7 +704,7 @@ def monitor(case):
                     return where + "register_evse before any constraint raised %s" % b["err"]
                 if o[1] not in ref.stations:
                     ref.stations.append(o[1])
-                ref.reg_log.append((o[1], o[3]))
+                ref.angle[o[1]] = o[3]
         elif k in ("add", "update"):
             items = b.get("cur")
             if items is None:
@@ -809,22 +809,13 @@ def monitor(case):
                     continue
             if len(rows) != len(ref.stations):
                 continue      # wrong height: numpy may broadcast a one-row schedule; not judged here
-            rereg = len(ref.reg_log) != len(ref.stations)
             if not ref.ever:
-                if not rereg and b["err"] != "TypeError":
+                if b["err"] != "TypeError":
                     return where + "query before any constraint: expected TypeError, got %r" % b["err"]
                 continue
             if b["err"] is not None:
-                if rereg and b["err"] == "ValueError":
-                    twice = sorted({s for s, _ in ref.reg_log if [x for x, _ in ref.reg_log].count(s) > 1})
-                    known = known or (KNOWN_SIG_REREG + ": " + where + "phase-aware constraint_current raises ValueError on a "
-                                      "well-formed schedule: %s registered more than once, _phase_angles has %d entries for %d stations"
-                                      % (twice, len(ref.reg_log), len(ref.stations)))
-                    continue
-                return where + "phase-aware constraint_current raised %s" % b["err"]
-            if rereg:
-                continue
-            ang = dict(ref.reg_log)
+                return where + "phase-aware constraint_current raised %s on a well-formed schedule" % b["err"]
+            ang = ref.angle
             sel = [i for i, x in enumerate(ref.live) if C is None or x[0] in C]
             cols = list(range(w)) if Tn is None else Tn
             for part, fn in (("re", math.cos), ("im", math.sin)):
@@ -841,7 +832,7 @@ def monitor(case):
                         full = b["full_" + part]
                         if full is not None and not close(full[i][t], val[r][c]):
                             return where + "subset result (%s) [%d][%d] differs from the full result [%d][%d]" % (part, r, c, i, t)
-    return known
+    return None
 
 
 # ---------------------------------------------------------------------------------------------
@@ -906,21 +897,3 @@ def replay_known(entry):
     if "ops" in w:
         return replay(dict(case=dict(ops=w["ops"])))
     return "not re-checked"
-
-
-def _open_finding_present():
-    """the findings file is compiled only while the open finding still reproduces"""
-    from harness import core
-    for e in core.known_findings(PID):
-        if e.get("status") == "open" and e.get("sig") == KNOWN_SIG_REREG:
-            try:
-                return bool(replay_known(e))
-            except Exception:  # noqa
-                return False
-    return False
-
-
-try:
-    EXTRA_PROP_FILES = ["coq/Props/C12_findings.v"] if _open_finding_present() else []
-except Exception:  # noqa
-    EXTRA_PROP_FILES = []
